@@ -275,8 +275,15 @@ def run(run):
                           ' the reference reader rejects', dict(w,
                                                                 error=str(e)))
         # ---- B: reference writer stream -----------------------------------
+        # (a third of the reference streams use zero-padded 3-byte length
+        # fields, as fixed-width writers emit: still well-formed VarInts)
+        pad = 3 if si % 3 == 0 else 0
+        w['reference_writer_pads_lengths'] = bool(pad)
+        if pad:
+            run.count('streams_with_padded_length_fields')
         ref_plain = b''.join(framing.frame(i[1], ref_payload(i), th,
-                                           level=rng.choice((1, 6, 9)))
+                                           level=rng.choice((1, 6, 9)),
+                                           pad=pad)
                              for i in seq)
         ref_wire = cfb8.CFB8(secret, secret).encrypt(ref_plain) \
             if cipher_on else ref_plain
@@ -322,6 +329,7 @@ def run(run):
     run.require('ref_reader_runs', 5)
     run.require('frames_compressed', 5)
     run.require('frames_uncompressed', 5)
+    run.require('streams_with_padded_length_fields', 5)
 
 
 LIVE_MODES = ('none', 'disconnect-late', 'disconnect-immediate-late',
